@@ -486,19 +486,31 @@ func main() {
 		}
 	}
 
+	self := goList(absRepo, ".")
+	if len(self) != 1 {
+		fmt.Fprintln(os.Stderr, "instrument: cannot list package")
+		os.Exit(2)
+	}
 	if *mode == "plain" {
 		for _, ex := range extras {
 			af, _ := filepath.Abs(ex)
 			overlay[filepath.Join(absRepo, extraDst[ex])] = af
 		}
+		var names []string
+		pkgName := "log"
+		pfs := token.NewFileSet()
+		for _, name := range self[0].GoFiles {
+			f, err := parser.ParseFile(pfs, filepath.Join(absRepo, name), nil, parser.SkipObjectResolution)
+			if err != nil {
+				fmt.Fprintln(os.Stderr, "instrument: parse:", err)
+				os.Exit(2)
+			}
+			pkgName = f.Name.Name
+			names = append(names, fileVars(f)...)
+		}
+		overlay[filepath.Join(absRepo, "zz_verif_globals.go")] = writeGlobals(*out, pkgName, names)
 		writeOverlay(*out, overlay)
 		return
-	}
-
-	self := goList(absRepo, ".")
-	if len(self) != 1 {
-		fmt.Fprintln(os.Stderr, "instrument: cannot list package")
-		os.Exit(2)
 	}
 	deps := goList(absRepo, "-export", "-deps", ".")
 	exports := map[string]string{}
@@ -587,37 +599,55 @@ func main() {
 	// so that each explored execution starts from the same state
 	var names []string
 	for _, sf := range files {
-		for _, d := range sf.f.Decls {
-			gd, ok := d.(*ast.GenDecl)
-			if !ok || gd.Tok != token.VAR {
-				continue
-			}
-			for _, sp := range gd.Specs {
-				for _, n := range sp.(*ast.ValueSpec).Names {
-					if n.Name != "_" {
-						names = append(names, n.Name)
-					}
+		if strings.HasPrefix(filepath.Base(sf.dst), "zz_verif_") {
+			continue
+		}
+		names = append(names, fileVars(sf.f)...)
+	}
+	overlay[filepath.Join(absRepo, "zz_verif_globals.go")] = writeGlobals(*out, files[0].f.Name.Name, names)
+	writeOverlay(*out, overlay)
+	fmt.Fprintf(os.Stderr, "instrument: %d files, %d edits, %d package-level variables\n", len(files), nedits, len(names))
+}
+
+// fileVars lists the package-level variables declared in f.
+func fileVars(f *ast.File) []string {
+	var names []string
+	for _, d := range f.Decls {
+		gd, ok := d.(*ast.GenDecl)
+		if !ok || gd.Tok != token.VAR {
+			continue
+		}
+		for _, sp := range gd.Specs {
+			for _, n := range sp.(*ast.ValueSpec).Names {
+				if n.Name != "_" {
+					names = append(names, n.Name)
 				}
 			}
 		}
 	}
+	return names
+}
+
+// writeGlobals generates zz_verif_globals.go: the table of all package-level variables and the deep
+// snapshot / in-place restore built on it. Returns the absolute path of the generated file.
+func writeGlobals(out, pkgName string, names []string) string {
 	sort.Strings(names)
 	var gb strings.Builder
-	gb.WriteString("package " + files[0].f.Name.Name + "\n\nimport zzvrt " + strconv.Quote(modPath+"/zzvrt") + "\n\nvar zzvrtRestore []func()\n\n")
-	gb.WriteString("// VerifResetGlobals restores every package-level variable to the value it had at the first call\n// (generated by the instrumenter; maps and slices are cloned one level deep).\nfunc VerifResetGlobals() {\n\tif zzvrtRestore == nil {\n\t\tzzvrtRestore = []func(){\n")
+	gb.WriteString("package " + pkgName + "\n\nimport zzvrt " + strconv.Quote(modPath+"/zzvrt") + "\n\n")
+	gb.WriteString("// VerifGlobals returns a pointer to every package-level variable, by name (generated).\nfunc VerifGlobals() map[string]any {\n\treturn map[string]any{\n")
 	for _, n := range names {
-		gb.WriteString("\t\t\tzzvrt.Snapshot(&" + n + "),\n")
+		gb.WriteString("\t\t" + strconv.Quote(n) + ": &" + n + ",\n")
 	}
-	gb.WriteString("\t\t}\n\t\treturn\n\t}\n\tfor _, f := range zzvrtRestore {\n\t\tf()\n\t}\n}\n")
-	gdst := filepath.Join(*out, "src", "zz_verif_globals.go")
+	gb.WriteString("\t}\n}\n\nvar zzvrtHeap *zzvrt.HeapSnap\n\n")
+	gb.WriteString("// VerifResetGlobals restores everything reachable from the package-level variables to the state it had at\n// the first call (generated; deep, in place - see zzvrt.HeapSnap).\nfunc VerifResetGlobals() {\n\tif zzvrtHeap == nil {\n\t\tzzvrtHeap = zzvrt.DeepSnapshot(VerifGlobals(), " + strconv.Quote(modPath) + ")\n\t\treturn\n\t}\n\tzzvrtHeap.Restore()\n}\n\n")
+	gb.WriteString("// VerifHeap returns the snapshot (nil before the first VerifResetGlobals).\nfunc VerifHeap() *zzvrt.HeapSnap { return zzvrtHeap }\n")
+	gdst := filepath.Join(out, "src", "zz_verif_globals.go")
 	if err := os.WriteFile(gdst, []byte(gb.String()), 0644); err != nil {
 		fmt.Fprintln(os.Stderr, "instrument:", err)
 		os.Exit(2)
 	}
 	agdst, _ := filepath.Abs(gdst)
-	overlay[filepath.Join(absRepo, "zz_verif_globals.go")] = agdst
-	writeOverlay(*out, overlay)
-	fmt.Fprintf(os.Stderr, "instrument: %d files, %d edits, %d package-level variables\n", len(files), nedits, len(names))
+	return agdst
 }
 
 func writeOverlay(out string, overlay map[string]string) {
